@@ -74,6 +74,7 @@ SIG_CONVERGE = 'refreshed-tile-still-stale'
 SIG_PROBE = 'is_cached-is_stale-answer-wrong'
 SIG_CRASH = 'unexpected-exception'
 SIG_LINK = 'linked-single-colour-tile,refresh-with-same-colour-keeps-old-timestamp'
+SIG_RECHECK = 'recheck-under-lock-refetches-refreshed-tile,backend='
 SIG_HARDLINK = 'hardlink-single-colour-tile,same-colour-re-store-never-fresh'
 SIG_SEED = 'seed-task-did-not-refetch-stale-tile'
 SIG_SEED_WALK = 'seed-task-did-not-examine-every-meta-tile'
@@ -354,7 +355,10 @@ class World(object):
                 if os.lstat(p).st_mtime > REAL_PAST:
                     os.utime(p, ns=(old, old))
 
-    def dump(self):
+    def dump_keep_open(self):
+        return self.dump(cleanup=False)
+
+    def dump(self, cleanup=True):
         """{coord: (content, ts_ticks)}; ts -1 when it is not an exact tick"""
         from PIL import Image
         out = {}
@@ -372,7 +376,8 @@ class World(object):
                     out[c] = (-4, ts)
         else:
             import io
-            self.tm.cleanup()
+            if cleanup:
+                self.tm.cleanup()
             for f in self.db_files():
                 db = sqlite3.connect(f)
                 for x, y, z, data, lm in db.execute('SELECT tile_column, tile_row, zoom_level, tile_data, last_modified FROM tiles'):
@@ -571,6 +576,49 @@ def run_history_tz(ctx, h):
                 steps.append({'kind': 'req', 'coords': coords, 'before': before, 'after': w.dump(), 'res': res,
                               'calls': [list(c) for c in w.source.calls[ncalls:]], 'first_call': ncalls,
                               'now': clock.ticks, 'rule': rule, 'expire': expire, 'ref': ref})
+            elif kind == 'race':
+                # the request `coords` decides on the state it sees first; while it waits for its first tile lock the
+                # request `other` completes (as another thread / process would); then it goes on under the lock
+                coords, other = [tuple(c) for c in ev[1]], [tuple(c) for c in ev[2]]
+                before = w.dump()
+                ncalls = len(w.source.calls)
+                mid = {}
+                orig_lock = w.tm.lock
+
+                def lock(tile, _w=w, _mid=mid, _other=other, _orig=orig_lock):
+                    if not _mid:
+                        _mid['fired'] = True
+                        try:
+                            _w.tm.load_tile_coords(_other)
+                            _mid['res'] = 'served'
+                        except Exception as e:  # noqa
+                            _mid['res'] = classify_exc(e)
+                        _w.restamp()
+                        _mid['dump'] = _w.dump_keep_open()
+                        _mid['calls'] = len(_w.source.calls)
+                    return _orig(tile)
+                w.tm.lock = lock
+                try:
+                    tiles = w.tm.load_tile_coords(coords)
+                    served = []
+                    for t in tiles:
+                        served.append(None if t.source is None else dec_image(t.source.as_image()))
+                    res = ('served', served)
+                except Exception as e:  # noqa
+                    res = ('raised', classify_exc(e))
+                finally:
+                    del w.tm.lock
+                try:
+                    w.tm.cleanup()
+                except Exception:  # noqa
+                    pass
+                w.restamp()
+                allc = [list(c) for c in w.source.calls[ncalls:]]
+                na = (mid.get('calls', ncalls) - ncalls)
+                steps.append({'kind': 'race', 'coords': coords, 'other': other, 'before': before, 'mid': mid.get('dump'),
+                              'other_res': mid.get('res'), 'after': w.dump(), 'res': res, 'calls': allc,
+                              'calls_other': allc[:na], 'calls_own': allc[na:], 'first_call': ncalls,
+                              'now': clock.ticks, 'rule': rule, 'expire': expire, 'ref': ref})
             elif kind == 'probe':
                 c = tuple(ev[1])
                 ans = []
@@ -637,7 +685,7 @@ def oracle(ctx, h, ob):
         thr = my_threshold(s['rule'], s['expire'], s['now'], s['ref'])
         before = s['before']
         rep = {'history': h, 'step': idx, 'threshold_ticks': thr, 'ticks_per_second': Q,
-               'observed': {k: v for k, v in s.items() if k not in ('before', 'after')},
+               'observed': {k: v for k, v in s.items() if k not in ('before', 'after', 'mid')},
                'cache_before': sorted([list(c), list(v)] for c, v in before.items())}
 
         def state(c):
@@ -660,6 +708,9 @@ def oracle(ctx, h, ob):
             continue
         if s['kind'] == 'seed':
             oracle_seed(ctx, h, s, thr, state, rep, outcome)
+            continue
+        if s['kind'] == 'race':
+            oracle_race(ctx, h, s, thr, state, rep, outcome)
             continue
         # request
         coords, res, calls, after = s['coords'], s['res'], s['calls'], s['after']
@@ -765,6 +816,55 @@ def oracle(ctx, h, ob):
                     elif is_stale_ts(after[c][1], thr):
                         ctx.fail(SIG_CONVERGE, 'tile %r was refreshed at %r but its timestamp %r is still at or before the '
                                  'threshold %r' % (c, s['now'], after[c][1], thr), rep)
+
+
+def oracle_race(ctx, h, s, thr, state, rep, outcome):
+    """a request that waited for the tile lock while another request completed: under the lock it may fetch only what is
+    still missing or stale, and old tiles survive"""
+    meta, before, mid, after = h['meta'], s['before'], s['mid'], s['after']
+    rep['cache_after'] = sorted([list(c), list(v)] for c, v in after.items())
+    for r in (s['res'][1] if s['res'][0] == 'raised' else '', s['other_res'] or ''):
+        if r.startswith('other'):
+            ctx.fail(SIG_CRASH, 'request raised %s' % r, rep)
+            return
+    if thr == 'err':
+        if s['calls'] or after != before:
+            ctx.fail(SIG_CRASH, 'reference file missing but the request changed something', rep)
+        return
+    if mid is None:
+        if s['calls']:
+            ctx.fail(SIG_FRESH, 'upstream request without taking a tile lock: %r' % (s['calls'],), rep)
+        return
+    rep['cache_when_lock_was_taken'] = sorted([list(c), list(v)] for c, v in mid.items())
+
+    def state_mid(c):
+        if c not in mid:
+            return 'missing'
+        if thr is None:
+            return 'fresh'
+        return 'stale' if is_stale_ts(mid[c][1], thr) else 'fresh'
+    needed = set(tuple(my_members(meta, c)) for c in s['coords'] if state(c) != 'fresh')
+    for cs in s['calls_own']:
+        cs = [tuple(c) for c in cs]
+        if tuple(cs) not in needed:
+            ctx.fail(SIG_FRESH, 'upstream request for %r although no requested tile of it was missing or stale' % (cs,), rep)
+        elif all(state_mid(c) == 'fresh' for c in cs):
+            ctx.fail(SIG_RECHECK + h['backend'], 'tiles %r were refreshed by another request while this request waited for the tile '
+                     'lock (entries %r, threshold %r), but under the lock they were fetched from the upstream again'
+                     % (cs, [mid.get(c) for c in cs], thr), rep)
+    covered = {}
+    for j, cs in enumerate(s['calls']):
+        for c in cs:
+            covered.setdefault(tuple(c), []).append(s['first_call'] + j)
+    for c, old in before.items():
+        new = after.get(c)
+        if new is None:
+            ctx.fail(SIG_DESTROY, 'tile %r (entry %r) is gone after the requests' % (c, old), rep)
+        elif new != old:
+            ks = [k for k in covered.get(c, []) if outcome(k)[0] == 'ok' and outcome(k)[1]]
+            if not ks or new[0] != outcome.new_content(ks[-1]):
+                ctx.fail(SIG_DESTROY, 'tile %r changed from %r to %r without a successful cacheable upstream answer for it'
+                         % (c, old, new), rep)
 
 
 def oracle_seed(ctx, h, s, thr, state, rep, outcome):
@@ -927,7 +1027,12 @@ def gen_history(rng, quick):
                 coords = rng.sample(src, min(n, len(src)))
             last_req = coords
             events.append(('req', coords))
-        elif x < 0.57:
+        elif x < 0.53:
+            n = rng.choice([1, 1, 2, 3])
+            coords = rng.sample(pool if rng.random() < 0.7 else tiles, min(n, len(pool)))
+            other = list(coords) if rng.random() < 0.6 else rng.sample(tiles, min(rng.choice([1, 2, 4]), len(tiles)))
+            events.append(('race', coords, other))
+        elif x < 0.59:
             tgt = rng.choice([target, target + Q, (cur_now // Q) * Q - Q, anchor, None, None])
             events.append(('seed', tgt, rng.random() < 0.3, level))
         elif x < 0.67:
@@ -1007,6 +1112,14 @@ def fixed_histories():
                             'script': [('ok', True, False, 5)],
                             'events': [('probe', a), ('probe', b), ('req', [a, b]), ('rule', {'time': BASE + 4}, None),
                                        ('probe', b), ('seed', t0 + 3600 * Q + 2 * Q, False, 2)]})
+    # two requests for the same stale tile: the second decides before the first has stored and re-checks under the lock
+    for backend in ('file', 'filelink', 'mbtiles', 'sqlite'):
+        for meta in (False, True):
+            out.append({'backend': backend, 'meta': meta, 'init': [(a, INIT, t0), (b, INIT + 1, t0 + 8 * Q)],
+                        'rule': {'time': BASE + 2}, 'expire': None, 'now': t0 + 10 * Q, 'ref': None,
+                        'script': [('ok', True, False, 3), ('ok', True, False, 4), ('err',), ('ok', True, False, 6)],
+                        'events': [('race', [a], [a]), ('probe', a), ('clock', t0 + 20 * Q), ('rule', {'seconds': 2 * Q}, None),
+                                   ('race', [a, b], [b, a]), ('race', [c], [a, c]), ('req', [a, b, c])]})
     # fractional mtimes (file back-end only)
     for meta in (False, True):
         out.append({'backend': 'file', 'meta': meta, 'init': [(a, INIT, t0 + 3), (b, INIT + 1, t0 + Q + 1), (c, INIT + 2, t0 - 1)],
@@ -1038,6 +1151,8 @@ def normalise(h):
             evs.append(('req', [tuple(c) for c in e[1]]))
         elif e[0] == 'probe':
             evs.append(('probe', tuple(e[1])))
+        elif e[0] == 'race':
+            evs.append(('race', [tuple(c) for c in e[1]], [tuple(c) for c in e[2]]))
         elif e[0] == 'seed':
             evs.append(('seed', e[1], bool(e[2]), e[3]))
         else:
@@ -1071,6 +1186,8 @@ def evlit(e, step=None):
         return '(ESeed %s %s %s)' % (olit(e[1]), blit(e[2]), llit(step['examined'], alit))
     if e[0] == 'req':
         return '(EReq %s)' % llit(e[1], alit)
+    if e[0] == 'race':
+        return '(ERace %s %s)' % (llit(e[1], alit), llit(e[2], alit))
     if e[0] == 'probe':
         return '(EProbe %s)' % alit(e[1])
     if e[0] == 'clock':
@@ -1148,7 +1265,7 @@ def run(ctx):
             ctx.problem('harness', 'history could not be run on the implementation: %r' % (e,),
                         {'history': jsonable(h), 'trace': traceback.format_exc()[-1500:]})
             continue
-        reqs = [s for s in ob['steps'] if s['kind'] == 'req']
+        reqs = [s for s in ob['steps'] if s['kind'] in ('req', 'race')]
         hit = any(not s['calls'] and s['res'][0] == 'served' and s['coords'] for s in reqs)
         miss = any(s['calls'] for s in ob['steps'] if s['kind'] in ('req', 'seed'))
         failed = any(h['script'][k][0] == 'err' for k in range(min(len(ob['log']), len(h['script']))))
@@ -1166,13 +1283,14 @@ def run(ctx):
         elif h['expire'] is not None:
             kind = 'expire_timestamp'
         ctx.count('initial_rule=' + kind)
+        ctx.count('race_events=%d' % min(3, sum(1 for s in ob['steps'] if s['kind'] == 'race')))
         ctx.count('seed_events=%d' % min(3, sum(1 for s in ob['steps'] if s['kind'] == 'seed')))
         for s in reqs:
             ctx.count('request=' + (s['res'][0] if s['res'][0] == 'served' else 'raised-' + s['res'][1]))
         oracle(ctx, h, ob)
         terms.append(case_term(h, ob))
         descr.append({'history': jsonable(h), 'implementation': {
-            'steps': [{k: v for k, v in s.items() if k not in ('before', 'after', 'rule', 'expire', 'ref')} for s in ob['steps']],
+            'steps': [{k: v for k, v in s.items() if k not in ('before', 'after', 'mid', 'rule', 'expire', 'ref')} for s in ob['steps']],
             'final_cache': sorted([list(c), list(v)] for c, v in ob['final'].items()), 'upstream_log': ob['log']}})
     hardlink_scenario(ctx)
     ctx.corr_check('history', 'Expiry', CASE_TYPE, terms, CHECKER, lambda i: descr[i], shard=60)
